@@ -608,6 +608,44 @@ Definition ls_visible_entries (ls : logstore) (lo : N) : list (N * N) :=
   end.
 
 (* ================================================================== *)
+(* restart: StateMachine.doRecover on the record found in the log store
+   (internal/rsm/statemachine.go). [shrunk] = the result of isShrunkSnapshot
+   (disk I/O), [last_applied] = GetLastApplied(), [ondisk_init] / [ondisk] =
+   s.onDiskInitIndex / s.onDiskIndex (what the on-disk state machine's Open
+   returned). snapshotter.Load = "state := the image" is C08 / C14.     *)
+
+Inductive recover_outcome :=
+| RcLoaded      (* snapshotter.Load ran: the state machine holds the image's state *)
+| RcSkipped     (* nothing loaded *)
+| RcOutOfDate   (* raft.ErrSnapshotOutOfDate *)
+| RcPanic.
+
+Definition recover_required (ss : snapshot) (init : bool) (ondisk_init ondisk : N) : bool :=
+  if init then
+    if recover_required_imported_first && s_imported ss then true
+    else ondisk_init <? s_ondisk ss
+  else ondisk <? s_ondisk ss.
+
+(* checkRecoverOnDiskSM: false = panics *)
+Definition check_recover_on_disk (ss : snapshot) (init : bool) (ondisk_init ondisk : N) : bool :=
+  if check_recover_exempts_imported && s_imported ss && init then true
+  else negb (s_ondisk ss <=? ondisk_init) && negb (s_ondisk ss <=? ondisk).
+
+(* checkPartialSnapshotApplyOnDiskSM: false = panics *)
+Definition check_partial_on_disk (ss : snapshot) (init : bool) (ondisk_init ondisk : N) : bool :=
+  if init then negb (ondisk_init <? s_ondisk ss) else negb (ondisk <? s_ondisk ss).
+
+Definition do_recover (on_disk_sm shrunk : bool) (last_applied ondisk_init ondisk : N)
+           (ss : snapshot) (init : bool) : recover_outcome :=
+  if s_index ss <=? last_applied then RcOutOfDate
+  else if s_witness ss || s_dummy ss || shrunk then
+    if on_disk_sm && negb (check_partial_on_disk ss init ondisk_init ondisk) then RcPanic else RcSkipped
+  else if negb on_disk_sm then RcLoaded
+  else if recover_required ss init ondisk_init ondisk then
+    if check_recover_on_disk ss init ondisk_init ondisk then RcLoaded else RcPanic
+  else RcSkipped.
+
+(* ================================================================== *)
 (* observations for the differential check                              *)
 
 Definition observe_membership (m : membership) : membership :=
